@@ -49,36 +49,17 @@ T = tlaval.to_tla
 NOAID = -1
 MAXMOLS = 4
 NAMESTR = ['molecule_%d' % i for i in range(MAXMOLS)]
+NPROC = max(2, min(tlc.NCPU, int(os.environ.get('VERIF_C03_PROCS', tlc.NCPU))))       # worker processes of this check
 KEY = {1: 4, 2: 1, 3: 7}          # node key of canonical atom c: neither contiguous nor in canonical order
 
 CFG = ("SPECIFICATION Spec\nINVARIANT NameOpIsDecl\nINVARIANT KthAtomAgrees\nINVARIANT TopIsRunLength\n"
-       "INVARIANT IncludeOnce\nINVARIANT SameNameSameTopology\nINVARIANT SortKeepsAtoms\n")
+       "INVARIANT IncludeOnce\nINVARIANT SameNameSameTopology\nINVARIANT SortKeepsAtoms\nINVARIANT KthGroAgrees\n"
+       "INVARIANT SharedIffEqual\n")
 
-GRO_CLAUSES = ('gro:atom-count-differs-between-gro-and-itps', 'gro:kth-gro-record-is-not-the-kth-itp-atom')
-AGREE_CLAUSES = ('atom-count-differs-between-coordinates-and-itp', 'kth-coordinate-record-is-not-the-kth-itp-atom',
-                 'same-name-for-molecules-with-different-topologies')
-
-
-def _has_atom_ids(sc):
-    if 'variants' in sc:
-        return any(a != NOAID for v in sc['variants'] for a in v['aid'])
-    if 'random' in sc:
-        return any('atomid' in a for p in sc['random']['palette'] for a in p['atoms'])
-    return False
-
-
-SIGNATURES = {
-    # D32: names given by the caller: one name for molecules with different topologies is written without complaint
-    'D32': lambda kind, sc: (sc.get('why') == 'same-name-for-molecules-with-different-topologies' and 'random' in sc
-                             and bool(sc['random'].get('caller_names'))
-                             and len(set(sc['random']['caller_names'])) < len(sc['random']['caller_names'])),
-}
-# findings of this driver that wait for the lead's decision: while known_findings.json has no entry with the id, a scenario
-# matching SIGNATURES[id] is printed as a NOTE and counted in the evidence, not reported as a violation
-PENDING = {
-    'D32': 'write_gmx_topology writes ONE itp (from the first molecule) for molecules the caller gave the same moltype name '
-           'although their topologies differ; the coordinate file then disagrees with it (nothing checks the names)',
-}
+SIGNATURES = {}
+# findings of this driver that wait for the lead's decision (id -> text): while known_findings.json has no entry with the
+# id, a scenario matching SIGNATURES[id] is printed as a NOTE and counted in the evidence, not reported as a violation
+PENDING = {}
 
 
 def _shape(atoms, bonds, nrexcl=1):
@@ -325,7 +306,8 @@ def read_back(dirpath, files, pdb_name, gro_name):
     return out
 
 
-NO_OPT = {'judged': False, 'go': False, 'sep': False, 'molname': 'molecule', 'chains': [], 'merge': [], 'all': False}
+NO_OPT = {'judged': False, 'go': False, 'sep': False, 'callernamed': False, 'molname': 'molecule', 'chains': [], 'merge': [],
+          'all': False}
 JUDGE_FIELDS = ('names', 'pdb', 'gro', 'itps', 'top', 'own', 'extra', 'opt', 'rb', 'again', 'hist', 'refused')
 EMPTY_FILES = {'pdb': [], 'gro': [], 'itps': [], 'extra': {'kind': 'none', 'atomtypes': [], 'atparams': [], 'nbparams': [], 'nbvalues': [], 'malformed': []},
                'top': {'includes': [], 'molecules': [], 'defines': [], 'malformed': []}}
@@ -362,6 +344,7 @@ def model_view(e):
         itps.append({'name': f['name'], 'atoms': [{'name': r['p'][3], 'resname': r['p'][2], 'resid': int(r['p'][1])} for r in atoms],
                      'bonds': sorted(bonds)})
     return {'names': e['names'], 'pdb': [[coord(a) for a in m] for m in e['pdb']],
+            'gro': [coord(a) for a in e['gro'][0]] if e['gro'] else [],
             'includes': [i for i in e['top']['includes'] if i != 'martini'],
             'molecules': [[m['name'], m['n']] for m in e['top']['molecules']],
             'itps': sorted(itps, key=lambda f: f['name'])}
@@ -369,7 +352,7 @@ def model_view(e):
 
 def model_expect(st):
     n = itpw.norm
-    return {'names': [NAMESTR[i] for i in st['ids']], 'pdb': n(st['pdb']),
+    return {'names': [NAMESTR[i] for i in st['ids']], 'pdb': n(st['pdb']), 'gro': n(st['gro']),
             'includes': list(st['top']['includes']),
             'molecules': [[m['name'], m['n']] for m in st['top']['molecules']],
             'itps': sorted(({'name': f['name'], 'atoms': n(f['atoms']), 'bonds': sorted(tuple(b) for b in f['bonds'])}
@@ -444,13 +427,14 @@ def judge_events(events, pool=None):
 
 
 def parts_of(verdict):
-    return [] if verdict == 'ok' else verdict.split(';')
+    return [] if (verdict == 'ok' or verdict.startswith('observation:')) else verdict.split(';')
 
 
 def _size(e):
     return (len(e['names']), sum(len(m) for m in e['pdb']), json.dumps(e['scenario'], sort_keys=True, default=str))
 
 
+OBS_CLASH = 'observation:caller-named-clash-not-refused'
 LEGS = ('gro', 'rb', 'again', 'hist', 'caller-named', 'refused', 'wide-name', 'wide-number')
 
 
@@ -459,6 +443,8 @@ def summarise(events, verdicts, stats, keep=2):
     out = {'n': len(events), 'ok': 0, 'counts': {}, 'kept': {}, 'tlc': stats, 'legs': {k: 0 for k in LEGS}}
     for e, v in zip(events, verdicts):
         ps = parts_of(v)
+        if v.startswith('observation:'):
+            out['legs'][v] = out['legs'].get(v, 0) + 1
         if not ps:
             out['ok'] += 1
         for p in ps:
@@ -709,7 +695,8 @@ def run_random_scenario(sc):
         vermouth.NameMolType(deduplicate=r['dedup'], molname=sc['molname']).run_system(again)
         hist.append({'perm': [p + 1 for p in r['perm']], 'dedup': r['dedup'],
                      'names': [m.meta['moltype'] for m in again.molecules]})
-    return event_of(run, {'source': 'random system', 'scenario': sc}, opt={'molname': sc['molname']}, hist=hist)
+    return event_of(run, {'source': 'random system', 'scenario': sc},
+                    opt={'molname': sc['molname'], 'callernamed': bool(sc.get('caller_names'))}, hist=hist)
 
 
 def _wide(e):
@@ -907,16 +894,29 @@ def run_cli_job(job):
         names = [m.meta.get('moltype', '') for m in system.molecules]
         return {'names': names, 'own': [own_itp(m, n) for m, n in zip(system.molecules, names)]}
 
-    def on_written(root):
+    def on_written(root, call):
+        import vermouth
+        from vermouth.file_writer import DeferredFileWriter
         files = _read_dir(root)
-        return read_back(root, files, job['x'], None)
+        rb = read_back(root, files, job['x'], None)
+        # HISTORY: the same live system written a second time by the same two writers (into a sub-directory)
+        os.mkdir('again')
+        os.chdir('again')
+        try:
+            call['write'](call['system'], *call['args'], **call['kwargs'])
+            vermouth.pdb.write_pdb(call['system'], job['x'], omit_charges=True)
+            DeferredFileWriter().write()
+        finally:
+            os.chdir(root)
+        return {'rb': rb, 'again_files': _read_dir(os.path.join(root, 'again'))}
 
     r = cli_c03.run_cli_input(text, options, on_system, in_name=in_name, x_name=job['x'], extra_files=extra_files,
                               on_written=on_written)
     origin = {'source': 'martinize2 ' + r['argv'], 'input': describe_input(job)}
     if r['rc'] != 0 or r['captured'] is None:
         return {'error': 'rc=%s\n%s' % (r['rc'], r['log'][-1200:]), 'origin': origin}
-    run = {'names': r['captured']['names'], 'own': r['captured']['own'], 'files': r['files'], 'rb': r['written']}
+    run = {'names': r['captured']['names'], 'own': r['captured']['own'], 'files': r['files'], 'rb': r['written']['rb'],
+           'again_files': r['written']['again_files']}
     e = event_of(run, origin, opt=opt_of(job), top_name='topol.top', pdb_name=job['x'], gro_name=None)
     e['scenario'] = {'cli': job}
     e['files'] = {k: v for k, v in r['files'].items() if k.endswith('.top')}
@@ -1136,7 +1136,10 @@ def run(tier, seed, ev, vd):
         'a type declared several times is counted as an observation (the statement does not speak about it)',
         'option clauses ("option:": -sep keeps identical chains apart, -name prefixes, numbering by first occurrence, merged '
         'chain groups in input order, -go = one molecule named by -name) go beyond the statement and are named separately',
-        'caller-named systems: one name for molecules with different topologies can only be honoured by refusing to write',
+        'caller-named systems (meta moltype set by hand, NameMolType not run): the statement speaks about the names the library '
+        'gives; one name on different topologies is a broken precondition of write_gmx_topology (documented: "we use the first '
+        'one"): counted as observation caller-named-clash-not-refused, a refusal would be accepted; consistent caller names '
+        'are judged like any other run',
     ]
     jobs = []
     for ui, (uni, maxmols) in enumerate(universes(tier, seed)):
@@ -1153,7 +1156,7 @@ def run(tier, seed, ev, vd):
     # ONE pool, a fresh process per task (a command-line run must not inherit the module state of another one); the
     # command-line runs go first (longest), their TLC shards are queued as soon as all of them have returned
     try:
-        with mp.Pool(tlc.NCPU, maxtasksperchild=1) as pool:
+        with mp.Pool(NPROC, maxtasksperchild=1) as pool:
             cli_async = [pool.apply_async(_cli_worker, ((job, os.path.join(park, 'ev%04d.json' % i)),)) for i, job in enumerate(cjobs)]
             tab_async = pool.map_async(_replay_range, jobs, chunksize=1)
             rand_async = pool.map_async(_random_chunk, [(nrand // nchunks, seed * 6151 + i) for i in range(nchunks)], chunksize=1)
@@ -1210,7 +1213,7 @@ def run(tier, seed, ev, vd):
         ev.nontrivial.update(p['nontrivial'])
         for x in p['errors']:
             vd.violation('writer-raised', x['scenario'], 'real run raised %s' % x['error'])
-    for leg in ('gro', 'rb', 'again', 'hist', 'caller-named', 'wide-name', 'wide-number'):
+    for leg in ('gro', 'rb', 'again', 'hist', 'caller-named', 'wide-name', 'wide-number', OBS_CLASH):
         if rnd['legs'].get(leg, 0) == 0:
             raise tlc.MachineryError('vacuous: no random system exercised %r' % leg)
     ev.traces += rnd['n']
@@ -1221,6 +1224,8 @@ def run(tier, seed, ev, vd):
                         'distinct_states': rnd['tlc'][0], 'states_generated': rnd['tlc'][1], 'wall_s': round(rnd['tlc'][2], 2),
                         'legs': rnd['legs'], 'clauses_failed': rnd['counts']})
     report(rnd, ev, vd, 'random system')
+    ev.extra['caller_named_clash_not_refused'] = rnd['legs'][OBS_CLASH]
+    ev.extra['caller_named_systems'] = rnd['legs']['caller-named']
     # --- the command line
     cli = [r for part, _ in judged for r in part]
     feats = set()
@@ -1284,15 +1289,12 @@ def replay(sc):
 def selftest(seed):
     """Binding demonstration: files of real runs with one field tampered must be rejected with the right clause."""
     rng = random.Random(seed)
-    pending = [fid for fid in PENDING if fid not in _known_ids()]
 
     def clean(pred, legs=(), tries=4000):
         for _ in range(tries):
             sc = random_system_scenario(rng)
             if len(sc['seq']) < 3 or sc.get('caller_names') or sc.get('renamings'):
                 continue
-            if any('atomid' in a for p in sc['palette'] for a in p['atoms']):
-                continue                  # D31 (GRO order) cannot show without atom ids: keeps the clean runs clean
             sc['legs'] = ['gro', 'rb'] + list(legs)
             e = run_random_scenario(sc)
             e['scenario'] = {'random': sc}
@@ -1301,7 +1303,7 @@ def selftest(seed):
         raise tlc.MachineryError('selftest: no suitable random system found')
 
     two = lambda e: len(set(e['names'])) >= 2      # noqa
-    batch, expect = [], {}
+    batch, expect, observed = [], {}, []
 
     def case(e, clause):
         batch.append(e)
@@ -1318,10 +1320,23 @@ def selftest(seed):
     e = clean(two)                                 # a coordinate record renamed
     e['pdb'][0][0] = dict(e['pdb'][0][0], name='ZZ')
     case(e, 'kth-coordinate-record-is-not-the-kth-itp-atom;readback:read_pdb-atom-differs-in-name-residue-or-order')
-    e = clean(two)                                 # a molecule whose own topology differs from the shared ITP
-    recs = copy.deepcopy(e['own'][0]['recs'])
-    i = next(i for i, r in enumerate(recs) if r['k'] == 'atom')
-    recs[i]['p'][0] = 'OTHER'
+    shared = lambda x: len(set(x['names'])) < len(x['names'])      # noqa
+    for tag, flag in (('named by NameMolType', False), ('named by the caller', True)):
+        e = clean(shared)                          # a molecule whose own topology differs from the ITP it shares with another
+        j = next(j for j, n in enumerate(e['names']) if e['names'].count(n) >= 2)
+        recs = copy.deepcopy(e['own'][j]['recs'])
+        i = next(i for i, r in enumerate(recs) if r['k'] == 'atom')
+        recs[i]['p'][0] = 'OTHER'
+        e['own'][j] = dict(e['own'][j], recs=recs)
+        e['opt'] = dict(e['opt'], callernamed=flag)
+        if flag:
+            observed.append(len(batch) + 1)
+            case(e, 'observation:caller-named-clash-not-refused')
+        else:
+            case(e, 'same-name-for-molecules-with-different-topologies')
+    e = clean(lambda x: len(set(x['names'])) == len(x['names']) and len(x['names']) >= 2)
+    recs = copy.deepcopy(e['own'][0]['recs'])      # ... and from the ITP written for it alone
+    next(r for r in recs if r['k'] == 'atom')['p'][0] = 'OTHER'
     e['own'][0] = dict(e['own'][0], recs=recs)
     case(e, 'same-name-for-molecules-with-different-topologies')
     case(clean(two), None)
@@ -1399,6 +1414,18 @@ def selftest(seed):
     b = next(n for n in h['names'] if n != a)
     h['names'] = [b if n == a else (a if n == b else n) for n in h['names']]           # consistent swap: numbering broken
     case(e, 'history:names-are-not-prefix_k-numbered-by-first-occurrence')
+    e = copy.deepcopy(batch[-2])                   # one of the orders keeps apart what the others share
+    h = next(h for h in e['hist'] if h['dedup'] and len(set(h['names'])) < len(h['names']))
+    h['names'] = ['%s_%d' % (e['opt']['molname'], i) for i in range(len(h['names']))]
+    case(e, 'history:which-molecules-share-a-type-depends-on-their-order')
+    e = copy.deepcopy(batch[-3])                   # a name shared although deduplication was off
+    e['hist'].append({'perm': list(range(1, len(e['names']) + 1)), 'dedup': False,
+                      'names': ['%s_0' % e['opt']['molname']] * len(e['names'])})
+    case(e, 'history:names-shared-without-deduplication')
+    e = copy.deepcopy(batch[-4])                   # a name shared by molecules whose topologies differ, in one order only
+    h = next(h for h in e['hist'] if h['dedup'] and len(set(h['names'])) >= 2)
+    h['names'] = ['%s_0' % e['opt']['molname']] * len(h['names'])
+    case(e, 'history:same-name-for-molecules-with-different-topologies')
     # option clauses on a (cheap) synthetic command-line description
     e = clean(lambda x: len(set(x['names'])) < len(x['names']) and x['opt']['molname'] == 'molecule')
     e['opt'] = dict(e['opt'], judged=True, sep=True)
@@ -1418,10 +1445,10 @@ def selftest(seed):
     verdicts, _ = judge_events(batch)
     for i, v in enumerate(verdicts, 1):
         assert v == expect.get(i, 'ok'), (i, v, expect.get(i))
-    print('selftest C03 (TRACE): %d tampered recordings rejected, each with its clause: %s; the other %d runs accepted'
-          % (len(expect), sorted({c for v in expect.values() for c in v.split(';')}), len(batch) - len(expect)))
-    if pending:
-        print('selftest C03: pending findings (reported, not registered): %s' % pending)
+    print('selftest C03 (TRACE): %d tampered recordings rejected, each with its clause: %s; the other %d runs accepted; '
+          'a clash among caller-given names is the observation, the same clash among names NameMolType gave the violation'
+          % (len(expect) - len(observed), sorted({c for i, v in expect.items() if i not in observed for c in v.split(';')}),
+             len(batch) - len(expect)))
     # TAB binding: the model's expectation for one system vs the real files, then with one expected name flipped
     uni = universes('quick', seed)[0][0]
     res = tlc.run('Output', CFG, consts=consts_of(uni[:3], 3), dump=True)
